@@ -36,9 +36,9 @@ FILES = {
     "src/djinterop/engine/v2/playlist_table.cpp": ["C18", "C09", "C07", "C11", "C14"],
     "src/djinterop/engine/v2/playlist_entity_table.cpp": ["C18", "C09", "C08", "C11", "C14"],
     "src/djinterop/engine/v2/information_table.cpp": ["C18", "C12", "C10"],
-    "src/djinterop/engine/v2/change_log_table.cpp": ["C16", "C18"],
+    "src/djinterop/engine/v2/change_log_table.cpp": ["C18", "C16"],
     "src/djinterop/engine/v2/crate_impl.cpp": ["C07", "C08", "C09", "C11", "C15", "C14"],
-    "src/djinterop/engine/v2/database_impl.cpp": ["C07", "C08", "C09", "C11", "C15", "C14"],
+    "src/djinterop/engine/v2/database_impl.cpp": ["C07", "C08", "C09", "C11", "C15", "C14", "C17", "C16"],
     "src/djinterop/engine/v1/engine_crate_impl.cpp": ["C07", "C08", "C11", "C15", "C14"],
     "src/djinterop/engine/v1/engine_database_impl.cpp": ["C07", "C08", "C11", "C15", "C14", "C17"],
     "src/djinterop/engine/v1/engine_storage.cpp": ["C01", "C06", "C07", "C08", "C10", "C11"],
@@ -51,8 +51,8 @@ FILES = {
     "src/djinterop/util/chrono.cpp": ["C18", "C01"],
     "src/djinterop/util/filesystem.cpp": ["C13", "C10"],
     "src/djinterop/track.cpp": ["C15", "C06", "C01"],
-    "src/djinterop/crate.cpp": ["C15", "C07"],
-    "src/djinterop/database.cpp": ["C15", "C07"],
+    "src/djinterop/crate.cpp": ["C15", "C07", "C08", "C09"],
+    "src/djinterop/database.cpp": ["C15", "C07", "C17", "C08", "C13"],
 }
 
 ROR = [(" <= ", " < "), (" < ", " <= "), (" >= ", " > "), (" > ", " >= "), (" == ", " != "), (" != ", " == ")]
@@ -276,7 +276,14 @@ def cmd_phase2(a):
 def cmd_recheck(a):
     """run further checks against mutants recorded as missed: --ids M0001,M0002 (default: all missed) --checks C02,C11 (default: the rest of the file's list)"""
     p2 = load("phase2.jsonl")
-    ids = set(a.ids.split(",")) if a.ids else {c["id"] for c in p2 if c["verdict"] in ("missed", "check_error")}
+    def trivially_equivalent(c):
+        b = c["before"].strip()
+        if b.startswith("assert(") or ".reserve(" in b:
+            return True  # asserts are compiled out in the release configuration the suite uses; reserve() is a hint
+        if c["op"] == "SQLSWAP" and not re.search(r"\b(SELECT|UPDATE|INSERT|WHERE|SET|VALUES|FROM)\b|= \?|\?,", b) and not re.search(r"^\"[A-Za-z]+, [A-Za-z, ]+\"?", b):
+            return True  # words swapped inside an exception message
+        return False
+    ids = set(a.ids.split(",")) if a.ids else {c["id"] for c in p2 if c["verdict"] in ("missed", "check_error") and not trivially_equivalent(c)}
     si, sn = (int(x) for x in a.shard.split("/"))
     wt = os.path.join(ROOT, "p2-wt" + (str(si) if si else ""))
     bd = os.path.join(ROOT, "p2-build" + (str(si) if si else ""))
